@@ -540,6 +540,22 @@ def rtc_cg_limit(dtname, kinds, tier):
                             rec.check(f"unfrozen_columns_iterate/{pk}-{dtname}", lab0, moved, "a non-converged column did not change with a larger budget")
                     else:
                         rec.check(f"frozen_column/{pk}-{dtname}", lab0, True, nontrivial=False)
+                # the same with a column that converges only approximately (eigenvector + small perturbation): after one step
+                # its residual is far below a large freeze threshold while the safe divisions are still far from triggering
+                bf2 = bf.clone()
+                bf2[..., 0] = bf[..., 0] + 1e-4 * b[..., 3] * (bf[..., 0].norm(dim=-1, keepdim=True) / b[..., 3].norm(dim=-1, keepdim=True))
+                outs = []
+                for j in (2, 3, 6):
+                    done, x = rec.guard(f"frozen_column_inexact/{pk}-{dtname}", lab0 + f"|j={j}", lambda: linear_cg(A.matmul, bf2, tolerance=1e-30, max_iter=j, max_tridiag_iter=0, preconditioner=pc, stop_updating_after=3e-2))
+                    if done:
+                        outs.append(x)
+                if len(outs) == 3:
+                    r0 = (bf2.double() - A64 @ outs[0].double())[..., 0].norm(dim=-1) / bf2.double()[..., 0].norm(dim=-1)
+                    if bool((r0 < 3e-3).all()) and bool((r0 > 1e-7).all()):
+                        same = all(torch.equal(o[..., 0], outs[0][..., 0]) for o in outs[1:])
+                        rec.check(f"frozen_column_inexact/{pk}-{dtname}", lab0, same, "a column whose residual is below stop_updating_after changed in later iterations")
+                    else:
+                        rec.check(f"frozen_column_inexact/{pk}-{dtname}", lab0, True, nontrivial=False)
             # rhs untouched
             bc = b.clone()
             linear_cg(A.matmul, b, **kw)
